@@ -547,9 +547,16 @@ def check(ctx):
     if hb:
         # ---------------- scripts through the real constructors
         keys = list(scripts.keys())
-        rc, out, err = vlib.run_harness(hb, ["sv-size"], "\n".join(keys) + "\n", timeout=300) if keys else (0, "", "")
-        lines = out.strip().split("\n") if out.strip() else []
-        ok = rc == 0 and len(lines) == len(keys)
+        slines, shangs, err = run_streaming(hb, "sv-size", keys, per_input_timeout=30) if keys else ([], [], "")
+        for k in shangs:    # a script on which the real constructors never return / kill the process is a failing input
+            ctx.violate("C18:hang:%s" % k[:80], "building / transforming values did not return within 30 s or killed the process "
+                        "(sizes not bounding the work?); script: %s" % k[:300],
+                        {"suite": "sv-size", "input": k, "code": "timeout",
+                         "how": "printf '%s\\n' <input> | timeout 30 build/harness-target/debug/slxh sv-size"})
+        keys = [k for k, l in zip(keys, slines) if l is not None]
+        lines = [l for l in slines if l is not None]
+        rc = 0
+        ok = not shangs and len(lines) == len(keys)
         bad_in = [k for k, l in zip(keys, lines) if l.startswith("BADINPUT")]
         ctx.oblige("harness:sv-size", "correspondence", ok and not bad_in,
                    "rc=%s lines=%d/%d badinput=%s %s" % (rc, len(lines), len(keys), bad_in[:2], err[-300:]))
